@@ -73,7 +73,7 @@ KINDS = ("basic", "gff", "gb")
 ADD = ("AddFeature", "AddRow")
 MUTATING = ("Update",) + ADD
 ROUND = ("Copy", "Pickle", "Json", "WriteLoad")
-READONLY = ("Query", "QueryList", "CountDistinct", "Describe")
+READONLY = ("Query", "QueryList", "QueryRep", "CountDistinct", "Describe")
 NSHARDS = 64
 
 _G: dict = {}
@@ -141,6 +141,8 @@ def arg_class(act, args):
         return other_class(args[0]) + f":seqids={len(args[2])}"
     if act == "QueryList":
         return f"field={args[1]}:win={win_of(args[0])}"
+    if act == "QueryRep":
+        return f"rep={args[1]}:cats={cats_of(args[0])}:win={win_of(args[0])}"
     if act == "CountDistinct":
         c = args[0]
         return "group=" + ("+".join(f for f in ("seqid", "biotype", "name") if c[f] == "group") or "none") + ":where=" + ("+".join(f for f in ("seqid", "biotype", "name") if c[f] not in ("no", "group")) or "none")
@@ -309,6 +311,40 @@ class Replayer:
                         return
                 if got_t["records"] != exp["records"]:
                     out.fail(self.key(act, args, db, "records:tuple-differs-from-list"), self.detail(view, chain, act, args, expected=exp["records"], observed=got_t["records"]), "a tuple of values selects differently from a list")
+            elif act == "QueryRep":
+                import numpy
+
+                q, rep = args
+                kw, nowin = A.query_kwargs(q)
+                conv = {"int64": numpy.int64, "int32": numpy.int32, "uint8": numpy.uint8, "str_": numpy.str_}[rep]
+                for k in list(kw):
+                    if (rep == "str_" and isinstance(kw[k], str)) or (rep != "str_" and k in ("start", "stop")):
+                        kw[k] = conv(kw[k])
+                        if k in nowin:
+                            nowin[k] = kw[k]
+                exp8 = sorted(A.spec8(view[i - 1]) for i in obs)
+                exp5 = sorted(A.spec5(view[i - 1]) for i in obs)
+                out.count(act, bool(view))
+                calls = [
+                    ("get_records_matching", exp8, lambda: sorted(A.rec8(r) for r in db.get_records_matching(**kw))),
+                    ("get_features_matching", exp5, lambda: sorted(A.feat5(r) for r in db.get_features_matching(**kw))),
+                ]
+                if q["win"] == "none":
+                    calls.append(("num_matches", len(obs), lambda: db.num_matches(**nowin)))
+                    cd = {f: (kw.get(f, False)) for f in ("seqid", "biotype", "name")}
+                    free = [f for f in ("seqid", "biotype", "name") if f not in kw]
+                    if free and "strand" not in kw and "attributes" not in kw:
+                        cd[free[0]] = True
+                        calls.append(("count_distinct", len(obs), lambda: sum(int(r[-1]) for r in db.count_distinct(**cd).to_list())))
+                calls.append(("subset", exp8, lambda: A.project(db.subset(**kw))))
+                for api, exp, call in calls:
+                    try:
+                        got = call()
+                    except Exception as ex:
+                        out.fail(f"{self.kind}:QueryRep:rep={rep}:win={q['win']}:{api}:exception:{type(ex).__name__}", self.detail(view, chain, act, args, api=api, exception=repr(ex)), f"{api} raised {type(ex).__name__} for a {rep} argument")
+                        continue
+                    if got != exp:
+                        out.fail(f"{self.kind}:QueryRep:rep={rep}:win={win_of(q)}:{api}:differs-from-plain-argument", self.detail(view, chain, act, args, api=api, expected=exp, observed=got), f"{api} with a {rep} argument differs from the linear scan")
             elif act == "CountDistinct":
                 c = args[0]
                 kw = {f: (False if c[f] == "no" else True if c[f] == "group" else c[f]) for f in ("seqid", "biotype", "name")}
@@ -853,7 +889,7 @@ def check(run: Run):
             nload += load_C17.validate(run, scratch, "MC_AnnotDb_load_thorough.cfg", 0.25)
         run.extra["wall_by_phase_s"]["loading"] = round(time.time() - t0, 1)
     acts = dict(totals["byact"])
-    needed = {"QueryList", "CountDistinct", "Describe", "Query", "Subset", "Union", "Update", "Copy", "Pickle", "Json", "WriteLoad", "AddFeature", "AddRow", "LoadFile"}
+    needed = {"QueryRep", "QueryList", "CountDistinct", "Describe", "Query", "Subset", "Union", "Update", "Copy", "Pickle", "Json", "WriteLoad", "AddFeature", "AddRow", "LoadFile"}
     if needed - set(acts):
         raise MachineryError(f"vacuous run: no real execution of {sorted(needed - set(acts))}")
     run.cov["traces_validated_against_impl"] = totals["n"] + nev + nprov + nload
